@@ -1007,12 +1007,19 @@ func newWatchEventPeer(peer *peer, m *fsmMsg, newState, oldState bgp.FSMState, t
 	recvOpen := peer.fsm.recvOpen
 	peer.fsm.lock.Unlock()
 
+	// the local address of the session, not the configured one (which is
+	// usually unset)
+	localAddress := conf.Transport.Config.LocalAddress
+	if newState == bgp.BGP_FSM_ESTABLISHED && conf.Transport.State.LocalAddress.IsValid() {
+		localAddress = conf.Transport.State.LocalAddress
+	}
+
 	e := &watchEventPeer{
 		Type:          t,
 		PeerAS:        conf.State.PeerAs,
 		LocalAS:       conf.Config.LocalAs,
 		PeerAddress:   conf.State.NeighborAddress,
-		LocalAddress:  conf.Transport.Config.LocalAddress,
+		LocalAddress:  localAddress,
 		PeerPort:      conf.Transport.State.RemotePort,
 		LocalPort:     conf.Transport.State.LocalPort,
 		PeerID:        conf.State.RemoteRouterId,
